@@ -130,6 +130,9 @@ def judge_pack(run, bench, rng, raw, off, res, spans, consumed, overlap, extent,
     run.case(key=cls_key, nontrivial=bool(consumed), n=0)
     if consumed:
         run.count("roundtrips_checked")
+    if pr.status == "timeout":
+        run.count("watchdog_skipped")
+        return
     if overlap:
         run.count("overlap_cases")
         if pr.status == "ok":
@@ -148,10 +151,16 @@ def judge_pack(run, bench, rng, raw, off, res, spans, consumed, overlap, extent,
         return
     # generated / vectorised variant of the same declaration
     rd = harness.lib_unpack(bench.root("d"), raw, off)
+    if rd.status == "timeout":
+        run.count("watchdog_skipped")
+        return
     if rd.status != "ok":
         run.violation("generated variant rejects an input the generic variant accepts", dict(witness, error=str(rd.err)[:300]), None)
         return
     pd = harness.lib_pack(rd.pkt)
+    if pd.status == "timeout":
+        run.count("watchdog_skipped")
+        return
     if pd.status != "ok":
         run.violation("pack() (generated variant) raised although no two fields consumed the same byte",
                       dict(witness, error=str(pd.err)[:400]), None)
@@ -253,6 +262,9 @@ def run(run):
                 for pkt, first, raw0 in held[:-1][-3:]:
                     again = harness.lib_pack(pkt)
                     run.count("earlier_parses_repacked")
+                    if again.status == "timeout":
+                        run.count("watchdog_skipped")
+                        continue
                     if again.status != "ok" or again.pkt != first:
                         run.violation("a packet parsed earlier no longer serializes to its own bytes after another input was parsed with the same class",
                                       {"source": driver.src_of(bench), "raw": b2j(raw0), "later_input": b2j(raw), "first_pack": b2j(first),
